@@ -1,4 +1,5 @@
 """Generators, reference codec and runners shared by C04 / C05 / C09."""
+import random
 import json
 import os
 import struct
@@ -44,6 +45,16 @@ def rand_map(rng, utf8_only=False, big=False, maxn=40):
         k = rand_bytes(rng, rand_len(rng), style)
         v = rand_bytes(rng, rand_len(rng, big), rng.choice([1, 2]) if utf8_only else rng.choice([0, 1, 2]))
         m[k] = v
+    # one map in four also holds entries that only LOOK like the reserved headers to anything but a walk over the
+    # length-prefixed pairs: a name ending in a reserved name, a value holding the bytes of a whole reserved pair
+    # (decided by a generator of its own, seeded by the map: the caller's stream is left as it was)
+    own = random.Random(repr(sorted(m.items())))
+    if m and own.random() < 0.25:
+        res = own.choice([b"_opid", b"_cid", b"_timeout"])
+        num = str(own.randrange(0, 1 << 40)).encode()
+        m[own.choice([b"parent", b"x", b"_", b"trace-"]) + res] = num
+        if own.random() < 0.5:
+            m[own.choice([b"note", b"n"])] = b"x" + struct.pack(">I", len(res)) + res + struct.pack(">I", len(num)) + num
     return m
 
 
